@@ -424,6 +424,15 @@ class Safety:
                 subj = self.key(test.left.func.value)
             elif k is not None and k in self.aliases:
                 subj = self.aliases[k]
+            if subj is not None and subj not in env:
+                # first look at this access path: take its declared class set
+                src = test.left.func.value if isinstance(test.left, ast.Call) else None
+                if src is not None:
+                    cur0 = self.ev(src, env)
+                    if ANY not in cur0:
+                        env = dict(env)
+                        env[subj] = cur0
+                        te, fe = dict(env), dict(env)
             if subj is not None and subj in env and ANY not in env[subj]:
                 consts = None
                 if isinstance(right, ast.Name):
@@ -511,6 +520,12 @@ class Safety:
             return None
         if isinstance(s, ast.Expr):
             self.ev(s.value, env)
+            if isinstance(s.value, ast.Call):
+                sets = self.sigs.get(ast.unparse(s.value.func) + "#sets")
+                if sets:
+                    env = dict(env)
+                    for k, v in sets.items():
+                        env[k] = frozenset(v)
             return env
         if isinstance(s, (ast.Assign, ast.AnnAssign, ast.AugAssign)):
             val = s.value
